@@ -22,6 +22,9 @@ pub fn lists() -> Vec<Vec<Det>> {
         // the second track
         vec![p().feat(&fa(), 0.9), q().feat(&look2(0.8, 0.3), 0.9)],
         vec![p1().feat(&fa(), 0.9), p().shift(-1.0, 0.5).feat(&look2(0.95, 0.1), 0.9), q().shift(1.0, 0.0)],
+        // 11: a call the library rejects (the second detection carries an invalid confidence: the call panics while
+        // the candidates are built, the caller recovers and goes on) - simple trackers only
+        vec![p1(), q().cid(REJECT_ID)],
     ]
 }
 
@@ -51,6 +54,14 @@ impl Monitor for ContractMonitor {
         match (op, out) {
             (TOp::Skip(s, n), _) => {
                 *self.epochs.entry(*s).or_insert(0) += n;
+            }
+            (TOp::Predict(scene, l), TOut::Recs(recs)) if has_rejected(&lists[*l]) => {
+                // a call the library rejected (invalid confidence): it reports nothing; whether it consumed an epoch
+                // is not part of the contract - the model takes the scene's epoch from the tracker
+                if !recs.is_empty() {
+                    return bad("rejected-call-returned-records", format!("{recs:?}"));
+                }
+                self.epochs.insert(*scene, trk.epoch(*scene));
             }
             (TOp::Predict(scene, l), TOut::Recs(recs)) => {
                 let dets = &lists[*l];
@@ -246,7 +257,7 @@ pub fn configs(tier: Tier) -> Vec<TrkCfg> {
 pub fn run(tier: Tier) -> Report {
     let rep = Report::new("C01", tier);
     let ls = lists();
-    rep.set_rule("every history of depth <= D (quick 3, thorough 4) over {predict(scene in {0,7}, one of 11 detection lists incl. empty, exact duplicates, nested, rotated, low confidence, custom ids, features, an appearance contest with a second choice), skip(scene,1)} on a fresh tracker, for Sort / BatchSort / VisualSort / BatchVisualSort x IoU(0.3) / Mahalanobis x shards 1,2 x (history, max_idle) variants; per call: one record per detection in order echoing box / custom id / scene, scene epoch, ids distinct within the call, length 1 exactly for never-issued ids and previous+1 otherwise, stored track agrees with the record. Schedule part (batch trackers, 2 voting threads): the same contract on every complete run of 2-3 multi-scene batches under every interleaving of voting threads, store workers, submitter and consumer threads within a deviation bound (every synchronisation operation a decision point for the two-scene batch that starts two tracks at once; named points for the pipelined consumer-thread runs); a panic, deadlock or step-cap hit is a violation. Non-trivial = history with at least one call of >= 2 detections.");
+    rep.set_rule("every history of depth <= D (quick 3, thorough 4) over {predict(scene in {0,7}, one of 11 detection lists incl. empty, (simple trackers:) a call the library rejects because of an invalid confidence - later calls must honour the contract all the same -, exact duplicates, nested, rotated, low confidence, custom ids, features, an appearance contest with a second choice), skip(scene,1)} on a fresh tracker, for Sort / BatchSort / VisualSort / BatchVisualSort x IoU(0.3) / Mahalanobis x shards 1,2 x (history, max_idle) variants; per call: one record per detection in order echoing box / custom id / scene, scene epoch, ids distinct within the call, length 1 exactly for never-issued ids and previous+1 otherwise, stored track agrees with the record. Schedule part (batch trackers, 2 voting threads): the same contract on every complete run of 2-3 multi-scene batches under every interleaving of voting threads, store workers, submitter and consumer threads within a deviation bound (every synchronisation operation a decision point for the two-scene batch that starts two tracks at once; named points for the pipelined consumer-thread runs); a panic, deadlock or step-cap hit is a violation. Non-trivial = history with at least one call of >= 2 detections.");
     rep.assume("history part: sequential use under the default schedule; schedule part: bounded departures from the default schedule (see schedule_part)");
     let depth = tier.pick(3usize, 4usize);
     let mut total_h = 0u64;
@@ -260,7 +271,7 @@ pub fn run(tier: Tier) -> Report {
         let mut alpha: Vec<TOp> = vec![];
         for s in [0u64, 7] {
             for l in 0..ls.len() {
-                if cfg.kind.is_batch() && ls[l].is_empty() {
+                if cfg.kind.is_batch() && (ls[l].is_empty() || has_rejected(&ls[l])) {
                     continue; // a batch cannot carry a scene without detections
                 }
                 alpha.push(TOp::Predict(s, l));
